@@ -1,10 +1,11 @@
 #!/bin/bash
 # maintenance helper: apply every stored seeded change to /repo in turn, run the property's check, undo.
 cd /verif
+mkdir -p /tmp/replay_ev
 for d in seeded/*/; do
   id=$(basename $d); prop=${id%%-*}
   if ! git -C /repo apply /verif/$d/patch.diff 2>/dev/null; then echo "$id: patch no longer applies"; continue; fi
-  bin/check $prop > /tmp/replay_$id.log 2>&1; c=$?
+  SA_EVIDENCE_DIR=/tmp/replay_ev bin/check $prop > /tmp/replay_$id.log 2>&1; c=$?
   git -C /repo checkout -- .
   rules=$(grep "^  R-" /tmp/replay_$id.log | awk '{print $1}' | sort -u | tr '\n' ' ')
   echo "$id: exit=$c $rules"
